@@ -80,8 +80,10 @@ def handle (op : String) (args : List String) : Option String :=
         | .compact y m d hh mm ss z => s!"ok {y} {m} {d} {hh} {mm} {ss} {showBool z}"
         | .other _ => "other")
   | "rrs.str", [dt, freq, interval, wkst, count, untl, bysetpos, bymonth, bymonthday, byyearday, byeaster, byweekno,
-                byweekday, byhour, byminute, bysecond] => do
+                byweekday, byhour, byminute, bysecond, fwd] => do
+      -- fwd = `calendar.firstweekday()` at the time of the `str()` call
       let x : StrIn := {
+        fwd := ← parseInt? fwd,
         dtstart := ← six? dt, freq := ← freq.toNat?, interval := ← parseInt? interval, wkst := ← parseInt? wkst,
         count := ← parseOptInt? count, untilV := ← six? untl,
         orig := { bysetpos := ← optList? bysetpos, bymonth := ← optList? bymonth, bymonthday := ← optList? bymonthday,
